@@ -13,9 +13,10 @@ import ForsysModel.Driver.C19
 import ForsysModel.Driver.C17
 import ForsysModel.Driver.C18
 import ForsysModel.Driver.C15
+import ForsysModel.Driver.Wkt
 open Lean Forsys Forsys.Driver
 
-def allOps : List Op := Forsys.Driver.Core.ops ++ Forsys.Driver.Time.ops ++ Forsys.Driver.Pressure.ops ++ Forsys.Driver.Session.ops ++ Forsys.Driver.C19.ops ++ Forsys.Driver.C17.ops ++ Forsys.Driver.C18.ops ++ Forsys.Driver.C14.ops ++ Forsys.Driver.C15.ops
+def allOps : List Op := Forsys.Driver.Core.ops ++ Forsys.Driver.Time.ops ++ Forsys.Driver.Pressure.ops ++ Forsys.Driver.Session.ops ++ Forsys.Driver.C19.ops ++ Forsys.Driver.C17.ops ++ Forsys.Driver.C18.ops ++ Forsys.Driver.C14.ops ++ Forsys.Driver.C15.ops ++ Forsys.Driver.Wkt.ops
 
 def dispatch (j : Json) : E Json := do
   let op ← (← field j "op").getStr?
